@@ -8,14 +8,16 @@ from checks import ddcommon
 
 META = {
     "title": "operations issued concurrently return the sequential handles; diagram stays well-formed with exact counts; the apply cache never serves a dangling weak edge",
-    "technique": "Rocq proof over a Gallina interleaving model of the concurrent unique table and reference counts (atomic actions get_or_insert / retain / release / move / collect-one-node of any number of threads; invariant = well-formed + per-level unique + exact counts, preserved by every action under every schedule; canonicity hence the same handle as a sequential run; collector removes only unowned, unreferenced nodes), extended by the apply cache (buckets with a lock bit and one entry of WEAK operand/value edges; try_lock / set / get+clone / unlock of the workers, pre_gc bucket by bucket / sweep / post_gc of the collector that runs under the shared lock): no dangling weak edge in any reachable state, a hit yields the memoised function, and the two broken protocol variants (empty buckets not kept locked; a lock() two parties can acquire) are refuted by computed witnesses; tie to the code: trace validation on BOTH manager implementations (index-based: crates/oxidd-manager-index; pointer-based: crates/oxidd-manager-pointer, own unique table / gc code, node ids = addresses) - the cfg(oxidd_verif) hooks of /repo log every get_or_insert, every collected node and every apply cache event (insertion, hit, per-bucket pre_gc lock and post_gc unlock, each reported with the bucket locked) inside parallel blocks run by several OS threads with seeded schedule perturbation, the log is replayed by the extracted step functions of the model and the manager's table after the block must equal the model's; results are compared with the sequential specification; C07m: the same for MTBDD<I64> (the kind with a DYNAMIC terminal manager: terminals are hash-consed by value, reference counted and collected by terminal_manager.gc() inside Manager::gc) and TDD: interleaving model coq/Mgr/ConcTerm.v of the terminal table + counted-edge tokens + cache buckets holding weak terminal edges + collector phases, protocol 'terminals are collected only between pre_gc and post_gc' proved safe under every schedule and its violation refuted by a computed schedule; parallel blocks with operations whose results / operands are short-lived terminals next to a collecting thread, end-state audit of the terminal table by the extracted checker",
+    "technique": "Rocq proof over a Gallina interleaving model of the concurrent unique table and reference counts (atomic actions get_or_insert / retain / release / move / collect-one-node of any number of threads; invariant = well-formed + per-level unique + exact counts, preserved by every action under every schedule; canonicity hence the same handle as a sequential run; collector removes only unowned, unreferenced nodes), extended by the apply cache (buckets with a lock bit and one entry of WEAK operand/value edges; try_lock / set / get+clone / unlock of the workers, pre_gc bucket by bucket / sweep / post_gc of the collector that runs under the shared lock): no dangling weak edge in any reachable state, a hit yields the memoised function, and the two broken protocol variants (empty buckets not kept locked; a lock() two parties can acquire) are refuted by computed witnesses; tie to the code: trace validation on BOTH manager implementations (index-based: crates/oxidd-manager-index; pointer-based: crates/oxidd-manager-pointer, own unique table / gc code, node ids = addresses) - the cfg(oxidd_verif) hooks of /repo log every get_or_insert, every collected node and every apply cache event (insertion, hit, per-bucket pre_gc lock and post_gc unlock, each reported with the bucket locked) inside parallel blocks run by several OS threads with seeded schedule perturbation, the log is replayed by the extracted step functions of the model and the manager's table after the block must equal the model's; results are compared with the sequential specification; C07m: the same for MTBDD<I64> (the kind with a DYNAMIC terminal manager: terminals are hash-consed by value, reference counted and collected by terminal_manager.gc() inside Manager::gc) and TDD: interleaving model coq/Mgr/ConcTerm.v of the terminal table + counted-edge tokens + cache buckets holding weak terminal edges + collector phases, protocol 'terminals are collected only between pre_gc and post_gc' proved safe under every schedule and its violation refuted by a computed schedule; parallel blocks with operations whose results / operands are short-lived terminals next to a collecting thread, end-state audit of the terminal table by the extracted checker; C07t: the terminal manager's own events (get_edge found / new / out of memory with the value's hash, every reference count increment and decrement of a terminal, the terminal collection's begin / removed ids / end, iterator items; fifth hook commit, inside terminal_manager/dynamic.rs) are logged in one total order with the table and cache events and replayed by the extracted log-level projection ystep (coq/Mgr/ConcTermLog.v) of xstep, proved to accept the log of every behaviour of the interleaving model",
     "category": "proof",
     "design_ref": "DESIGN.md section 5, C07",
     "level_text": "Theorems (coq/Props/C07.v) over coq/Mgr/Conc.v: every action of every thread preserves the invariant CInv (keys distinct, node preconditions, per-level uniqueness, owned edges valid, reported count = owner tokens + parent edges), hence every state reachable under ANY interleaving is a well-formed snapshot with exact reference counts to which the canonicity theorems of C01 apply (two threads that build the same function hold the same edge = the handle of a sequential run); a node with a positive count keeps its level and children under every action of other threads and of the collector; the collector can only remove nodes without owner and parent; the table-only projection used for replay is simulated by the full model. C07_cache_* over coq/Mgr/ConcCache.v (apply cache of weak edges + collector phases, the code's protocol): the invariant KInv (CInv + every operand/value edge of every cache entry points to a stored node or terminal + buckets held by the collector are empty, locked and free of workers + one worker per bucket + exact lock bits) is preserved by every action of every thread and of the collector under every schedule; a hit returns valid edges, the thread owns them, and every edge of the entry denotes what it denoted when the entry was written (memoised function); whenever the collector removes a node all buckets are empty and locked; REFUTED by computed schedules: pre_gc skipping empty buckets, and a lock() that ignores the swapped value, both reach a dangling entry in an unlocked bucket whose next hit breaks CInv. The log-level replay lstep accepts the projection of every behaviour of the model (C07_cache_log_sim / trace_sim) and whatever it accepts has no dangling entry (C07_cache_log_inv / clog_inv). C07_term_* over coq/Mgr/ConcTerm.v (MTBDD: DynamicTerminalManager; state = terminal table keyed by value with counts + free chain + tokens of counted terminal edges held by threads / handles / stored nodes + cache buckets with the terminal ids of their weak operand and value edges + collector phase; actions get_terminal (find-or-insert by value), retain, drop, move, try_lock / add / lookup+clone / unlock, pre_gc bucket by bucket, per-terminal collection step, post_gc): the invariant XInv (ids and VALUES pairwise distinct, free chain disjoint, stored count = number of counted edges, every counted edge and every weak edge of every bucket names a stored terminal, buckets held by the collector are empty) is preserved by every action under every schedule from the empty manager (C07_term_step_inv / run_inv / reachable_inv / reachable_checks); a hit returns stored terminals with unchanged values, positive counts, owned by the thread (C07_term_hit_valid); the collector frees a terminal only in the sweep phase, with all buckets empty and locked and no counted edge to it (C07_term_gc_safe); a terminal named by a cache entry or owned by somebody keeps its value under every action (C07_term_value_stable), an entry that is neither overwritten nor cleared is hit with exactly the memoised terminals and values after any schedule (C07_term_entry_memo / hit_memo); REFUTED by a computed schedule: terminal collection after post_gc reaches a dangling weak edge in an unlocked bucket, the next hit hands out a freed slot resp. a terminal with another value (C07_term_refute_late_gc, _hit, _wrong_value; the schedule is impossible under the code\'s protocol). Tie to the code on every run, on the index-based manager build (all cases) and on the pointer-based manager build (--features cfg-pointer; every third history, every second hammer / gcstorm / stress case, ids ptr-*; the model is manager-agnostic: same reference-count convention stored = reported + 1, collector removes iff the stored count is 1, same hook sites): histories with 2-4 OS threads (plus the manager's worker pool: *MT function types with 1/2/4 workers) executing apply / ite / quantification / clone / drop and collections under the shared lock concurrently on one manager (BDD, BCDD, ZBDD), with seeded random yields/spins injected at the hook sites (level lock, apply cache get/add, retain/release, collector); (1) the logged table events are replayed by the extracted model step: no duplicate insertion, no stale hit, no dangling or ill-formed node, no collection of a referenced node, final table identical; (1b) the logged apply cache events are replayed by the extracted lstep/clstep: no insertion or hit in a bucket between its pre_gc lock and post_gc unlock, no removal by the collector unless ALL buckets are locked, post_gc unlocks exactly what pre_gc locked, every hit names stored nodes only and equals the entry written last; (2) every result's value table is compared with the sequential specification and all handles are audited for canonicity (same function => same edge, also across threads), well-formedness and exact reference counts on the snapshot after each block (extracted checkers of C01/C03/C05). C07m: MTBDD<I64> cases (index-based manager only; ids m*): 2-3 blocks of 3-4 threads recomputing ADD / SUB with a constant result (the cache entry's value edge is a terminal nobody else holds), operations with a just created and at once dropped constant operand (weak operand edge), short-lived constants (slot reuse), arithmetic on constants, ITE / RESTRICT / MIN / MAX / MUL / VAR, dropping three quarters of the results at once, while one thread runs collections for as long as they work, with seeded preemption of the collector inside pre_gc / post_gc (gcyield); kept results = pointwise I64 arithmetic of the operands' value tables (extracted Num/I64.v), snapshot after every block: wf, exact inner counts, canonicity, terminal table lifted by the extracted lift_terms and checked by tinv_b (no two slots with one value, no edge to a collected terminal), after gc exactly the referenced terminals remain and none after DROPALL; a crash / abort / hang of the harness in such a case is a violation. TDD cases (ids d*, both managers): churn blocks of three-valued operations next to a collecting thread, same replay and audits, results against the extracted three-valued tables (prop C11 of dd_main.ml).",
-    "level_note": "PARTIAL by nature: the theorem is about the model's atomic actions; that the hooked regions of /repo are atomic (correctness of parking_lot mutexes, the hand-written RwLock and the cache's spin lock, Release/Acquire ordering on reference counts, rayon) is assumed, not verified, and data races below the granularity of the hooks cannot be exhibited: a broken bucket lock is only seen when the race actually happens in a run (the gcstorm cases make the collector take 1-2 buckets a few thousand times per case while 3 threads hammer them). The explored interleavings are those the OS scheduler plus the seeded perturbation produce (a search, not an enumeration): a replay re-runs the same case and seed but the interleaving may differ. The cache model's operator is opaque: 'memoised function' = the denotations of operand and value edges are unchanged between insertion and hit (any relation between them that held at insertion holds at the hit); it is not instantiated with the CacheOK predicate of the apply proofs (C02). The log does not contain the operator and numeric operands of an entry nor the cache contents at the start of a block (entries written before are 'unknown': their hits are only checked for dangling edges). Deadlock freedom is covered by the watchdog (a hang is a violation) and by the lock-order lemma of the model only. Direct-mapped cache only. C07m: the terminal manager of /repo has no hooks (none were added): get_terminal / terminal release / the terminal collection are not in the event log, so xstep of coq/Mgr/ConcTerm.v is proof-only and the tie for the terminal protocol is the end-state audit (value tables of the results, terminal table via tinv_b on the lifted snapshot, surviving terminals after gc) plus crash detection; the implementation's terminal reference counts are not readable through the public API (the lifted counts are the prescribed ones; a wrong count shows as a terminal surviving gc or a dangling handle); the model abstracts stored inner nodes to holders of counted edges and collects terminals one entry per step (the code holds the terminal manager's mutex for the whole scan: fewer behaviours). MTBDD exists for the index-based manager only; F64 terminals are not in the parallel cases. Pointer-based manager: the table events come from LevelViewSet::get_or_insert / LevelViewSet::gc / Manager::gc of that crate; Function::clone/drop and Edge::drop_inner report retain/release (perturbation sites only, not replayed); try_remove_node (reordering, exclusive lock) and the arcslab slot allocator are not hooked (the allocator is abstracted as 'the proposed slot is not in use', as for the index store). Trusted: Coq kernel, extraction, OCaml drivers, Rust harness, the hooks.",
+    "level_note": "PARTIAL by nature: the theorem is about the model's atomic actions; that the hooked regions of /repo are atomic (correctness of parking_lot mutexes, the hand-written RwLock and the cache's spin lock, Release/Acquire ordering on reference counts, rayon) is assumed, not verified, and data races below the granularity of the hooks cannot be exhibited: a broken bucket lock is only seen when the race actually happens in a run (the gcstorm cases make the collector take 1-2 buckets a few thousand times per case while 3 threads hammer them). The explored interleavings are those the OS scheduler plus the seeded perturbation produce (a search, not an enumeration): a replay re-runs the same case and seed but the interleaving may differ. The cache model's operator is opaque: 'memoised function' = the denotations of operand and value edges are unchanged between insertion and hit (any relation between them that held at insertion holds at the hit); it is not instantiated with the CacheOK predicate of the apply proofs (C02). The log does not contain the operator and numeric operands of an entry nor the cache contents at the start of a block (entries written before are 'unknown': their hits are only checked for dangling edges). Deadlock freedom is covered by the watchdog (a hang is a violation) and by the lock-order lemma of the model only. Direct-mapped cache only. C07m / C07t: the replay of the terminal manager's events uses the log-level projection ystep (table id |-> value hash and count, free chain, collector phase, increments owed per thread); the ownership tokens / holders / bucket locks of xstep (coq/Mgr/ConcTerm.v) are not in the log, xstep and xrun themselves stay proof-only (C07_term_log_sim / _trace_sim connect them to ystep); the value of a terminal is represented by the FxHasher hash the hook reports (a collision of two live values would be reported as a duplicate terminal; slot |-> value string of the snapshots is cross-checked against slot |-> hash); the implementation's terminal reference counts are still not readable through the public API: the replayed counts are the logged fetch_add / fetch_sub events, compared at every snapshot with handles + child edges; an increment is logged after and a decrement before the atomic operation, so the log order of two racing count changes of one terminal may differ from their real order (harmless for the rules checked: each needs a counted edge that is held across the operation); the model abstracts stored inner nodes to holders of counted edges and collects terminals one entry per step (the code holds the terminal manager's mutex for the whole scan: fewer behaviours). MTBDD exists for the index-based manager only; F64 terminals are not in the parallel cases. Pointer-based manager: the table events come from LevelViewSet::get_or_insert / LevelViewSet::gc / Manager::gc of that crate; Function::clone/drop and Edge::drop_inner report retain/release (perturbation sites only, not replayed); try_remove_node (reordering, exclusive lock) and the arcslab slot allocator are not hooked (the allocator is abstracted as 'the proposed slot is not in use', as for the index store). Trusted: Coq kernel, extraction, OCaml drivers, Rust harness, the hooks.",
 }
+# package C07t (trace replay for the dynamic terminal manager): coq/Mgr/ConcTermLog.v, ConcTermLogProofs.v, theorems C07_term_log_*
+META["level_text"] += " C07t (C07_term_log_*, 18 theorems over coq/Mgr/ConcTermLog.v): ystep = the projection of xstep to what the terminal manager hooks log (terminal table id |-> value hash and count, free chain, collector phase, reference count increments owed per thread after a `found` / cache hit / iterator item); it accepts the log xlabs of every action of every holder and of the collector in every state satisfying XInv and ends in the projection of the next state (log_sim), hence the log of every schedule from a new manager of any capacity (log_trace_sim, log_reachable_accepted, log_init); whatever it accepts keeps ids and values pairwise distinct and the free chain disjoint (log_inv, log_run_inv, log_inv_checker); it accepts the scan and a removal only in the sweep phase and a removal only for a stored terminal without counted edge (log_scan, log_free), a `found` only of the id holding the value, a new id only if it heads the free chain, is unused and the value is not stored (log_found, log_new), a decrement and an unannounced increment only with a counted edge (log_retain, log_release); the snapshot comparison ymatch_b accepts every state of the model (log_match_proj) and a replayed table that passes it makes up, with the snapshot's handles and child edges as tokens, a state satisfying XInv (log_match_lift); log_example (a log through every label), log_refused (the logs of seeded C07e - terminal collection after post_gc began -, of a removal of a counted terminal, a `found` of a collected slot, a new id in use, a second slot for a value, clone / release without a counted edge and an iterator item without its increment are refused). Tie: the MTBDD cases m* carry tt=1: the harness logs the terminal manager's events for the whole case (inside the blocks in one total order with the table and cache events), ocaml/c07_main.ml replays them from Model.yinit on with the extracted ystep: every found / new decision, every count change, every removal and the phase of every terminal collection must be the model's (violation: prop=C07 inside a block, prop=C05 in the sequential parts), the replayed table replaces the 'terminal ids named by events count as stored' rule of C07m (so a get_or_insert child, a cache operand or value edge to a collected terminal is seen by the table / cache replay), and at every snapshot the replayed table must equal the lifted snapshot (ids, count = handles + child edges, slot |-> value against slot |-> hash); control logs corpus/C07/terminal-replay-controls.txt (n20..n28 rejected, p3 accepted) on every run."
 ALLOWED_AXIOMS = ()
-MODEL_VOS = ["Base/Conv.vo", "DD/Table.vo", "DD/TableExtra.vo", "Mgr/Conc.vo", "Mgr/ConcCache.vo", "Mgr/ConcTerm.vo"]
+MODEL_VOS = ["Base/Conv.vo", "DD/Table.vo", "DD/TableExtra.vo", "Mgr/Conc.vo", "Mgr/ConcCache.vo", "Mgr/ConcTerm.vo", "Mgr/ConcTermLog.vo"]
 
 
 def build(ctx):
@@ -432,7 +434,9 @@ def gen_mtbdd(cid, rng, thorough):
     ops += ["DROPALL", "GC", "SNAP"]
     hdr = ddgen.header(cid, "mtbdd", cap=1 << 16, cache=rng.choice([256, 1024, 1024, 4096]), threads=1,
                        extra=f"seed={rng.randrange(1 << 30)} yield={rng.choice([0, 20, 100])} gcyield={rng.choice([0, 2, 5, 10])}")
-    return (hdr, ops)
+    # C07t: the terminal manager's events (get_edge, retain / release, gc, iterator) are logged for the whole case and
+    # replayed by the extracted ystep of coq/Mgr/ConcTermLog.v
+    return (hdr + " tt=1", ops)
 
 
 T3_BIN = ["T3AND", "T3OR", "T3XOR", "T3EQUIV", "T3NAND", "T3NOR", "T3IMP", "T3IMPS"]
@@ -627,15 +631,20 @@ def replay_controls(ctx, drv_tr):
     """The replay of the apply cache events must reject the hand-written protocol violations of
     corpus/C07/cache-protocol-controls.txt (cases n*) and accept the protocol-conforming log (p1); the end-state
     audit of the terminal table (C07m) must reject the snapshots of corpus/C07/terminal-audit-controls.txt (two slots
-    with one value, handle / child edge to a terminal the manager does not list) and accept p2."""
-    for name in ("cache-protocol-controls.txt", "terminal-audit-controls.txt"):
+    with one value, handle / child edge to a terminal the manager does not list) and accept p2; the replay of the
+    terminal manager's events (C07t) must reject the logs n20..n28 of corpus/C07/terminal-replay-controls.txt (removal of
+    a counted terminal, `found` of a collected slot, new id in use, terminal collection after post_gc began, iterator
+    item / hit without increment, inexact count at a snapshot, hit on a collected terminal, clone without a counted
+    edge, second slot for a value) and accept p3."""
+    for name in ("cache-protocol-controls.txt", "terminal-audit-controls.txt", "terminal-replay-controls.txt"):
         f = os.path.join(vf.ROOT, "corpus", "C07", name)
         ok, bad, _ = vf.run_driver(drv_tr, f, os.path.join(ctx.workdir, "controls-" + name))
         want_bad = {l.split()[1] for l in open(f) if l.startswith("CASE n")}
         got_bad = {c for c, m in bad if "kind=prop" in m}
         if ok != 1 or got_bad != want_bad or len(bad) != len(want_bad):
             raise vf.CheckFailure(f"the trace driver does not classify the control logs of corpus/C07/{name} as expected: ok={ok} bad={sorted(c for c, _ in bad)}")
-        ctx.add_stat("cache_protocol_controls_rejected" if name.startswith("cache") else "terminal_audit_controls_rejected", len(got_bad))
+        ctx.add_stat({"cache-protocol-controls.txt": "cache_protocol_controls_rejected", "terminal-audit-controls.txt": "terminal_audit_controls_rejected",
+                      "terminal-replay-controls.txt": "terminal_replay_controls_rejected"}[name], len(got_bad))
 
 
 def run(ctx):
@@ -662,6 +671,8 @@ def run(ctx):
     # C07m: the MTBDD family is vacuous if no terminal table was audited after a block / no result was compared
     if any(h.startswith("m") for h, _ in cases) and not any(c.startswith("m") for c, _ in res["bad_tr"] + res["bad_dd"]):
         for st, what in (("trace_chk_C07_terminal_table_after_block", "no terminal table of an MTBDD case was audited after a parallel block"),
+                         ("trace_ev_term_retain_in_blocks", "the log of the MTBDD cases holds no terminal manager event inside a parallel block: the cfg(oxidd_verif) terminal manager hooks of /repo (hooks.json) are missing or inactive"),
+                         ("trace_chk_term_replay_vs_snapshot", "no replayed terminal table was compared with a snapshot"),
                          ("chk_C10", "no result of an MTBDD operation was compared with the sequential specification")):
             if int(ctx.stats.get(st, 0)) == 0:
                 raise vf.CheckFailure(what + " (drivers out of date?)")
@@ -751,13 +762,18 @@ def run(ctx):
                    "mtbdd_terminal_tables_audited": int(ctx.stats.get("trace_chk_C07_terminal_table", 0)),
                    "mtbdd_terminals_audited": int(ctx.stats.get("trace_terminals_audited", 0)),
                    "mtbdd_results_compared_with_sequential_spec": int(ctx.stats.get("chk_C10", 0)),
+                   "mtbdd_terminal_events_replayed_in_blocks": sum(int(ctx.stats.get("trace_ev_term_" + k + "_in_blocks", 0)) for k in ("get_found", "get_new", "get_oom", "retain", "release", "gc", "removed", "iter")),
+                   "mtbdd_terminal_events_replayed": {k: int(ctx.stats.get("trace_ev_term_" + k, 0)) for k in ("get_found", "get_new", "get_oom", "retain", "retain_announced", "release", "gc", "removed", "iter", "hit_value_edges")},
+                   "mtbdd_terminal_collections_replayed_in_blocks": int(ctx.stats.get("trace_ev_term_gc_in_blocks", 0)),
+                   "mtbdd_replayed_terminal_tables_compared_with_snapshots": int(ctx.stats.get("trace_chk_term_replay_vs_snapshot", 0)),
+                   "mtbdd_replayed_terminal_counts_compared": int(ctx.stats.get("trace_term_replay_terminals_compared", 0)),
                    "tdd_results_compared_with_sequential_spec": int(ctx.stats.get("chk_C11", 0)) + int(ctx.stats.get("ptr_chk_C11", 0)),
                    "tier": ctx.tier},
         assumptions=[
             "atomicity of the hooked regions of /repo (mutexes, the RwLock, atomics with Release/Acquire, rayon) is assumed; the model's actions are atomic by definition",
             "the explored schedules are those produced by the OS scheduler and the seeded perturbation at the hook sites; not an exhaustive enumeration",
             "hooks exist in the index-based manager, the pointer-based manager and the direct-mapped apply cache only (hooks.json: three add-only commits under cfg(oxidd_verif))",
-            "the dynamic terminal manager (MTBDD) has no hooks: its protocol (terminals collected only between pre_gc and post_gc) is proved on the model coq/Mgr/ConcTerm.v and tied to the code by end-state audits only",
+            "the dynamic terminal manager (MTBDD) is hooked inside terminal_manager/dynamic.rs (hooks.json, fifth commit): its events are replayed by the extracted log-level projection ystep (coq/Mgr/ConcTermLog.v) of the interleaving model coq/Mgr/ConcTerm.v; xstep itself (ownership tokens, holders, bucket locks) stays proof-only",
         ])
 
 
